@@ -85,6 +85,13 @@ class Closure:
         self.node, self.fi = node, fi
 
 
+class SliceV:
+    """slice(lower, upper[, step]) held in a variable (bounds: scalar asts or None)"""
+
+    def __init__(self, lower, upper, step=None):
+        self.lower, self.upper, self.step = lower, upper, step
+
+
 class Subst(ast.NodeTransformer):
     def __init__(self, env):
         self.env = env
@@ -127,6 +134,21 @@ def sub_(a, b):
     if is_zero(b):
         return a
     return ast.BinOp(left=a, op=ast.Sub(), right=b)
+
+
+class _Simp(ast.NodeTransformer):
+    """`a if 0 == 0 else b` -> a  (selection among stacked items by a literal position)"""
+
+    def visit_IfExp(self, node):
+        self.generic_visit(node)
+        t = node.test
+        if isinstance(t, ast.Compare) and len(t.ops) == 1 and isinstance(t.ops[0], ast.Eq) and isinstance(t.left, ast.Constant) and isinstance(t.comparators[0], ast.Constant):
+            return node.body if t.left.value == t.comparators[0].value else node.orelse
+        return node
+
+
+def simp(e):
+    return _Simp().visit(e) if any(isinstance(n, ast.IfExp) for n in ast.walk(e)) else e
 
 
 def names_in(e):
@@ -191,6 +213,7 @@ class Interp:
         if any(d.parts for d in lam.dims):
             raise Unknown("compound axis inside a reduction")
         order = {v: k for k, v in enumerate(vars_)}
+        ext_of = {d.var: d.extent for d in lam.dims if d.var is not None}
 
         class V(ast.NodeTransformer):
             def __init__(s):
@@ -206,6 +229,16 @@ class Interp:
                     if isinstance(x, ast.Name) and x.id in order:
                         new.append(ast.Slice(lower=None, upper=None, step=None))
                         seen.append(x.id)
+                    elif isinstance(x, ast.BinOp) and isinstance(x.op, ast.Add) and isinstance(x.right, ast.Name) and x.right.id in order \
+                            and not (names_in(x.left) & set(order)) and ext_of.get(x.right.id) is not None:
+                        # lo + j with j over an axis of extent hi - lo: the slice lo:hi
+                        lo_, e_ = x.left, ext_of[x.right.id]
+                        if isinstance(e_, ast.BinOp) and isinstance(e_.op, ast.Sub) and astq.dump(e_.right) == astq.dump(lo_):
+                            up_ = e_.left
+                        else:
+                            up_ = add(copy.deepcopy(lo_), copy.deepcopy(e_))
+                        new.append(ast.Slice(lower=copy.deepcopy(lo_), upper=copy.deepcopy(up_), step=None))
+                        seen.append(x.right.id)
                     else:
                         new.append(s.visit(x))
                 if seen:
@@ -241,7 +274,26 @@ class Interp:
             raise Unknown(f"`{astq.src(e, 40)}` not evaluable")
         return v
 
+    def list_as_lam(self, name):
+        """a list that received exactly one value per iteration of one (finished) loop, unconditionally: the array of those values"""
+        aps = [a for a in self.appends if a["list"] == name and a.get("fi") is self.fi]
+        if len(aps) != 1:
+            return None
+        a = aps[0]
+        v = a["value"]
+        if not isinstance(v, Lam) or not a["loops"] or a["path"]:
+            return None
+        # the loop must be over (the innermost loop of the append, all outer ones still running or none)
+        if len(a["loops"]) != len(self.loops) + 1 or any(x[2] is not y[2] for x, y in zip(a["loops"], self.loops)):
+            return None
+        var, d, _node = a["loops"][-1]
+        if var is None or d is None or d.parts:
+            return None
+        return Lam([d.copy()] + list(v.dims), v.body, v.is_bool)
+
     def as_lam(self, v):
+        if isinstance(v, LstV):
+            return self.list_as_lam(v.name)
         if isinstance(v, Tab):
             dims = [Dim(self.fresh("a"), ast.Subscript(value=ast.Attribute(value=N(v.name), attr="shape", ctx=ast.Load()), slice=C(k), ctx=ast.Load())) for k in range(v.rank)]
             idx = [N(d.var) for d in dims]
@@ -391,12 +443,37 @@ class Interp:
             return None
         return self.index(lam, astq.index_elts(e), e)
 
+    def bound(self, b):
+        """scalar body of a slice bound"""
+        if getattr(b, "_lamdone", False):
+            return b
+        return self.as_lam(self.need(b)).body
+
     def index(self, lam, elts, node=None):
         dims_in = list(lam.dims)
         body = lam.body
         out = []
         pos = 0
         adv = None          # (position in out, dims of the advanced index)
+        # slice objects held in names (band = slice(lo, hi)) are the slices they denote; `...` stands for the full slices it covers
+        elts2 = []
+        for x in elts:
+            if isinstance(x, ast.Name) and isinstance(self.env.get(x.id), SliceV):
+                sv_ = self.env[x.id]
+                x = ast.Slice(lower=copy.deepcopy(sv_.lower), upper=copy.deepcopy(sv_.upper), step=copy.deepcopy(sv_.step))
+                for b_ in (x.lower, x.upper, x.step):
+                    if b_ is not None:
+                        b_._lamdone = True          # bounds of a slice object are scalar bodies already
+            elif isinstance(x, ast.Call) and isinstance(x.func, ast.Name) and x.func.id == "slice" and 1 <= len(x.args) <= 3 and not x.keywords:
+                a_ = [None if (isinstance(z, ast.Constant) and z.value is None) else z for z in x.args]
+                x = ast.Slice(lower=None, upper=a_[0], step=None) if len(a_) == 1 else ast.Slice(lower=a_[0], upper=a_[1], step=a_[2] if len(a_) == 3 else None)
+            elts2.append(x)
+        if any(isinstance(x, ast.Constant) and x.value is Ellipsis for x in elts2):
+            k_ = next(i for i, x in enumerate(elts2) if isinstance(x, ast.Constant) and x.value is Ellipsis)
+            consumed = sum(1 for x in elts2 if not ((isinstance(x, ast.Constant) and x.value in (None, Ellipsis)) or (isinstance(x, ast.Attribute) and x.attr == "newaxis")))
+            fill = max(len(dims_in) - consumed, 0)
+            elts2 = elts2[:k_] + [ast.Slice(lower=None, upper=None, step=None)] * fill + elts2[k_ + 1:]
+        elts = elts2
         for x in elts:
             if (isinstance(x, ast.Constant) and x.value is None) or (isinstance(x, ast.Attribute) and x.attr == "newaxis"):
                 out.append(Dim(None))
@@ -409,27 +486,27 @@ class Interp:
             pos += 1
             if isinstance(x, ast.Slice):
                 if x.step is not None:
-                    st = self.as_lam(self.need(x.step))
+                    st = self.as_lam(self.need(x.step)) if not getattr(x.step, "_lamdone", False) else scal(x.step)
                     if not (st.scalar and isinstance(st.body, ast.Constant) and st.body.value == 1):
                         raise Unknown("strided slice")
                 if x.lower is None and x.upper is None:
                     out.append(d)
                     continue
                 if d.var is None or d.parts:
-                    lo_c = self.as_lam(self.need(x.lower)).body if x.lower is not None else C(0)
+                    lo_c = self.bound(x.lower) if x.lower is not None else C(0)
                     if d.parts and x.upper is not None:
-                        r = self.block_slice(d, lo_c, self.as_lam(self.need(x.upper)).body)
+                        r = self.block_slice(d, lo_c, self.bound(x.upper))
                         if r is not None:
                             nd, env_ = r
                             body = subst(body, env_)
                             out.append(nd)
                             continue
                     raise Unknown("partial slice of a broadcast / compound axis")
-                lo = self.as_lam(self.need(x.lower)).body if x.lower is not None else C(0)
+                lo = self.bound(x.lower) if x.lower is not None else C(0)
                 nv = self.fresh("a")
                 ext = None
                 if x.upper is not None:
-                    hi = self.as_lam(self.need(x.upper)).body
+                    hi = self.bound(x.upper)
                     if isinstance(hi, ast.UnaryOp) and isinstance(hi.op, ast.USub) and d.extent is not None:
                         hi = sub_(d.extent, hi.operand)
                     ext = sub_(hi, lo)
@@ -443,7 +520,7 @@ class Interp:
                 raise Unknown("index not evaluable")
             if v.scalar:
                 if d.var is not None and not d.parts:
-                    body = subst(body, {d.var: v.body})
+                    body = simp(subst(body, {d.var: v.body}))
                 elif d.parts:
                     raise Unknown("scalar index into a compound axis")
                 continue
@@ -835,6 +912,26 @@ class Interp:
     def stack(self, nm, e):
         a0 = e.args[0]
         items = None
+        if isinstance(a0, (ast.Tuple, ast.List)) and nm == "numpy.stack" and 1 <= len(a0.elts) <= 4 and not any(isinstance(x, ast.Starred) for x in a0.elts):
+            # np.stack((A, B), axis=k): a new axis of extent 2 whose position selects A or B
+            ls = [self.as_lam(self.need(x)) for x in a0.elts]
+            if any(l is None for l in ls):
+                return None
+            ax = self.const_int({k.arg: k.value for k in e.keywords}.get("axis") or (e.args[1] if len(e.args) > 1 else None))
+            ax = 0 if ax is None else ax
+            z = self.fresh("z")
+
+            def sel(*bodies):
+                out = bodies[-1]
+                for i in range(len(bodies) - 2, -1, -1):
+                    out = ast.IfExp(test=ast.Compare(left=N(z), ops=[ast.Eq()], comparators=[C(i)]), body=bodies[i], orelse=out)
+                return out
+            r = self.broadcast(ls, sel)
+            nd = len(r.dims) + 1
+            k = ax % nd
+            dims = list(r.dims)
+            dims.insert(k, Dim(z, C(len(ls))))
+            return Lam(dims, r.body)
         if isinstance(a0, (ast.ListComp, ast.GeneratorExp)):
             v = self.comp(a0)
             if v is None:
@@ -918,8 +1015,11 @@ class Interp:
         elem = Lam(lv.dims[1:], lv.body, lv.is_bool)
         if isinstance(target, ast.Name):
             self.env[target.id] = elem
-        elif isinstance(target, ast.Tuple) and elem.dims and False:
-            return None
+        elif isinstance(target, ast.Tuple) and elem.dims and all(isinstance(t_, ast.Name) for t_ in target.elts) \
+                and isinstance(elem.dims[0].extent, ast.Constant) and elem.dims[0].extent.value == len(target.elts) and elem.dims[0].var is not None:
+            # for lo, hi in <array with two columns>: the columns of the row
+            for i, t_ in enumerate(target.elts):
+                self.env[t_.id] = Lam(elem.dims[1:], simp(subst(elem.body, {elem.dims[0].var: C(i)})), elem.is_bool)
         else:
             return None
         return d
@@ -1212,6 +1312,21 @@ class Interp:
             if isinstance(value, ast.Lambda):
                 self.env[t.id] = Closure(value)
                 return
+            if isinstance(value, ast.Call) and isinstance(value.func, ast.Name) and value.func.id == "slice" and 1 <= len(value.args) <= 3 and not value.keywords \
+                    and "slice" not in self.env:
+                bs = []
+                for z in value.args:
+                    if isinstance(z, ast.Constant) and z.value is None:
+                        bs.append(None)
+                    else:
+                        zl = self.as_lam(self.ev(z)) if self.ev(z) is not None else None
+                        if zl is None or not zl.scalar:
+                            bs = None
+                            break
+                        bs.append(zl.body)
+                if bs is not None:
+                    self.env[t.id] = SliceV(None, bs[0]) if len(bs) == 1 else SliceV(bs[0], bs[1], bs[2] if len(bs) == 3 else None)
+                    return
             if isinstance(value, (ast.Compare, ast.BoolOp, ast.UnaryOp, ast.Name)) or \
                     (isinstance(value, ast.Call) and isinstance(value.func, ast.Name) and value.func.id == "isinstance"):
                 tv = self.truth(value)
